@@ -585,6 +585,17 @@ class CFG(object):
                     out.append((e, pol, d))
         return out
 
+    def branch_atoms(self, nid, inline=False):
+        """Canonical (text, polarity) atoms asserted by the branch node itself
+        (a true/false node), not by what dominates it."""
+        from . import canon
+        n = self.nodes[nid]
+        if n.kind not in ("true", "false"):
+            return set()
+        test = self.ctest(nid) if inline else n.ast
+        return {(canon.ctext(e), p)
+                for e, p in canon._atoms(test, n.kind == "true")}
+
     def guard_texts(self, nid, inline=False):
         from . import canon
         return {(canon.ctext(e), p) for e, p, _ in self.guards(nid, inline)}
